@@ -50,7 +50,8 @@ class Contract:
     executor's own expression evaluator (so and/or/not mean the same thing to prover and replay)."""
 
     def __init__(self, file, qual, params=None, result=None, requires=(), ensures=(), modifies=(), raises=None,
-                 setup=(), reads=None, pure=False, allocates=True, doc="", ghost_results=None, cases=None):
+                 setup=(), reads=None, pure=False, allocates=True, doc="", ghost_results=None, cases=None,
+                 ghost_exit=()):
         self.file, self.qual = file, qual
         self.params = params or {}
         self.result = result
@@ -63,6 +64,7 @@ class Contract:
         self.doc = doc
         self.ghost_results = ghost_results or {}
         self.cases = cases          # optional list of spec clauses: exhaustive case split of the pre-state
+        self.ghost_exit = list(ghost_exit)   # ghost statements run at every normal exit (may only assign ghost state)
 
     @property
     def cls(self):
@@ -144,7 +146,15 @@ class Engine:
             return RealS
         if t == "bool":
             return BoolS
+        if t.startswith(("seq:", "map:")):
+            return z3.ArraySort(IntS, self.sort_of_type(self.arr_elem(t)))
         return IntS     # ref:, vec:, list:
+
+    @staticmethod
+    def arr_elem(t):
+        """element type of a ghost sequence/map type 'seq:<T>' / 'map:<T>'"""
+        inner = t[4:]
+        return inner if inner in ("real", "int", "bool") else "ref:" + inner
 
     def harr(self, state, name, sort=None):
         a = state.heap.get(name)
@@ -193,6 +203,8 @@ class Engine:
             return Ref(to_z3(e, IntS), t[4:])
         if t.startswith("vec:") or t.startswith("list:") or t == "tuple":
             return Ref(to_z3(e, IntS), t)
+        if t.startswith(("seq:", "map:")):
+            return e if isinstance(e, ArrVal) else ArrVal(e, self.arr_elem(t))
         return e
 
     def load(self, state, ref, name, node=None):
@@ -204,9 +216,10 @@ class Engine:
             self.oblige(state, ref.e != 0, "nonnull", node, "dereference .%s" % name)
         e = simp(z3.Select(arr, ref.e))
         self.instantiate_heap_axioms(e)
-        if t and t.startswith(("ref:", "vec:", "list:")) and not z3.is_int_value(e):
+        if t and t.startswith(("ref:", "vec:", "list:")) and not z3.is_int_value(e) and self.quant_depth == 0:
             # heap well-formedness (Python has no dangling or future references): a stored reference denotes None
-            # or an object that has already been allocated
+            # or an object that has already been allocated.  (Not recorded for loads under a spec quantifier: the
+            # loaded term mentions the bound variable.)
             state.assume(z3.And(e >= 0, e < state.abase + state.nalloc))
         return self.wrap(self.norm(e), t)
 
@@ -402,11 +415,22 @@ class Engine:
     def check_frame(self, state, loc, node=None):
         kind, r, name = loc
         for targets, base, label in self.frames:
+            if kind == "fieldall":
+                ok = any(k2 == "any" or (k2 == "fieldall" and n2 == name) for (k2, r2, n2) in targets)
+                if not ok:
+                    self.oblige(state, False, "frame[%s]" % label, node,
+                                "write to field .%s of arbitrary objects must be inside modifies" % name)
+                continue
             alts = [r >= base]
             for (k2, r2, n2) in targets:
                 if k2 == "any":
                     alts = [z3.BoolVal(True)]
                     break
+                if k2 == "fieldall":
+                    if kind == "field" and n2 == name:
+                        alts = [z3.BoolVal(True)]
+                        break
+                    continue
                 if k2 == kind and n2 == name:
                     alts.append(r == r2)
                 elif k2 == "obj":          # whole object footprint
@@ -427,11 +451,15 @@ class Engine:
         if env is not None:
             state.env = env
         try:
+            if isinstance(tree, ast.Call) and isinstance(tree.func, ast.Name) and tree.func.id == "allof":
+                # the field of EVERY object (coarse frame, e.g. the link fields touched by a search-dependent splice)
+                return ("fieldall", None, tree.args[0].id)
             if isinstance(tree, ast.Call) and isinstance(tree.func, ast.Name) and tree.func.id in ("elems", "len_", "obj"):
                 v = self.eval(state, tree.args[0])
                 if not isinstance(v, Ref):
                     self.unsupported("modifies target %s is not an object" % t)
-                return ({"elems": "elems", "len_": "len", "obj": "obj"}[tree.func.id], v.e, None)
+                kind = {"elems": "elems", "len_": "len", "obj": "obj"}[tree.func.id]
+                return (kind, v.e, self.spec_class(v) if kind == "obj" else None)
             if isinstance(tree, ast.Attribute):
                 v = self.eval(state, tree.value)
                 if not isinstance(v, Ref):
@@ -444,6 +472,26 @@ class Engine:
     def spec_class(self, ref):
         return ref.cls if ref.cls and not ref.cls.startswith(("vec:", "list:")) else None
 
+    _class_fields = None
+
+    def class_fields(self, cls):
+        """mangled names of the attributes that the methods of `cls` (and its bases) assign through self"""
+        if self._class_fields is None:
+            self._class_fields = {}
+        if cls not in self._class_fields:
+            if self.repo.cls(cls) is None:
+                self._class_fields[cls] = None
+            else:
+                names = set()
+                for ci in self.repo.mro(cls):
+                    for fn in ci.methods.values():
+                        for n in ast.walk(fn):
+                            if isinstance(n, ast.Attribute) and isinstance(n.ctx, ast.Store) and \
+                                    isinstance(n.value, ast.Name) and n.value.id == "self":
+                                names.add(mangle(ci.name, n.attr))
+                self._class_fields[cls] = names
+        return self._class_fields[cls]
+
     def havoc_target(self, state, loc):
         kind, r, name = loc
         if kind == "field":
@@ -453,6 +501,9 @@ class Engine:
             if t and (t.startswith(("ref:", "vec:", "list:"))):
                 v = z3.Select(state.heap[name], r)
                 state.assume(z3.And(v >= 0, v < state.abase + state.nalloc))
+        elif kind == "fieldall":
+            arr = self.harr(state, name)
+            state.heap[name] = self.fresh("hv_all_" + name, arr.sort())
         elif kind == "elems":
             for key, S in (("$elemR", ElemR), ("$elemI", ElemI)):
                 a = state.heap.get(key)
@@ -465,6 +516,12 @@ class Engine:
             state.heap["$len"] = z3.Store(la, r, nl)
             state.assume(nl >= 0)
         elif kind == "obj":
+            # every declared field of the object is havocked, also those no statement has touched yet
+            own = self.class_fields(name) if name else None
+            for fname, t in list(self.schema.items()):
+                if isinstance(fname, str) and not fname.startswith("$") and fname not in state.heap and \
+                        (own is None or fname in own or (fname.startswith("g") and fname[1:2].islower())):
+                    self.harr(state, fname)
             for name, arr in list(state.heap.items()):
                 if name.startswith("$"):
                     continue
@@ -746,6 +803,9 @@ class Engine:
     def compare(self, state, op, a, b, node=None):
         if isinstance(op, (ast.Is, ast.IsNot, ast.Eq, ast.NotEq)):
             neg = isinstance(op, (ast.IsNot, ast.NotEq))
+            if isinstance(a, ArrVal) and isinstance(b, ArrVal):
+                r = a.arr == b.arr
+                return znot(r) if neg else r
             if isinstance(a, Ref) or isinstance(b, Ref) or a is None or b is None:
                 if isinstance(op, (ast.Eq, ast.NotEq)) and isinstance(a, Ref) and isinstance(b, Ref) and \
                         (a.cls or "").startswith(("vec:", "list:")) and self.spec_mode == 0:
@@ -906,6 +966,9 @@ class Engine:
             return base.items[c]
         if isinstance(base, Ref):
             return self.vec_get(state, base, idx, node)
+        if isinstance(base, ArrVal):
+            e = simp(z3.Select(base.arr, to_z3(idx, IntS)))
+            return self.wrap(self.norm(e), base.elem)
         if isinstance(base, Builtin):
             return base        # typing subscripts (List[...])
         self.unsupported("subscript of %r" % (base,), node)
@@ -970,6 +1033,35 @@ class Engine:
                     so.env = saved_env
             if n == "forall":
                 return self.spec_forall(state, node)
+            if n == "implies" and len(node.args) == 2:
+                a = self.truth(self.eval(state, node.args[0]), node)
+                ca = concrete(a)
+                if ca is not None:
+                    return self.truth(self.eval(state, node.args[1]), node) if ca else True
+                g = self._push_guard(state, a)
+                try:
+                    b = self.truth(self.eval(state, node.args[1]), node)
+                finally:
+                    self._pop_guard(state, g)
+                return zimplies(a, b)
+            if n == "forall_ref":
+                # forall_ref("Class", lambda o: body): o ranges over all objects (references) of that class
+                cls = node.args[0].value
+                lam = node.args[1]
+                var = lam.args.args[0].arg
+                k = self.fresh("q_" + var, IntS)
+                saved = state.env.get(var, None)
+                state.env[var] = Ref(k, cls)
+                self.quant_depth += 1
+                try:
+                    b = to_z3(self.truth(self.eval(state, lam.body)), BoolS)
+                finally:
+                    self.quant_depth -= 1
+                    if saved is None:
+                        state.env.pop(var, None)
+                    else:
+                        state.env[var] = saved
+                return self.quantify(k, z3.Implies(k >= 1, b))
             if n == "exists":
                 return znot(self.spec_forall(state, node, neg=True))
         if isinstance(node.func, ast.Name) and node.func.id == "super":
@@ -1023,15 +1115,68 @@ class Engine:
                 return zand(*parts)
             k = self.fresh("q_" + var, IntS)
             state.env[var] = k
-            b = to_z3(self.truth(self.eval(state, lam.body)), BoolS)
+            self.quant_depth += 1
+            try:
+                b = to_z3(self.truth(self.eval(state, lam.body)), BoolS)
+            finally:
+                self.quant_depth -= 1
             if neg:
                 b = z3.Not(b)
-            return z3.ForAll([k], z3.Implies(z3.And(to_z3(lo, IntS) <= k, k < to_z3(hi, IntS)), b))
+            return self.quantify(k, z3.Implies(z3.And(to_z3(lo, IntS) <= k, k < to_z3(hi, IntS)), b))
         finally:
             if saved is None:
                 state.env.pop(var, None)
             else:
                 state.env[var] = saved
+
+    @staticmethod
+    def quantify(k, body):
+        """forall k. body, with explicit single-term triggers select(A, k) (A free of k) when the body has any"""
+        kid = k.get_id()
+        body = z3.simplify(body)       # triggers are taken from the normal form the solver will see
+        pats, seen, stack = {}, set(), [body]
+
+        def has_k(e):
+            st2, sn = [e], set()
+            while st2:
+                x = st2.pop()
+                if x.get_id() == kid:
+                    return True
+                if x.get_id() in sn:
+                    continue
+                sn.add(x.get_id())
+                if z3.is_quantifier(x):
+                    st2.append(x.body())
+                else:
+                    st2.extend(x.children())
+            return False
+        OKK = (z3.Z3_OP_UNINTERPRETED, z3.Z3_OP_SELECT, z3.Z3_OP_STORE, z3.Z3_OP_ANUM, z3.Z3_OP_ADD, z3.Z3_OP_SUB,
+               z3.Z3_OP_CONST_ARRAY, z3.Z3_OP_TO_REAL)
+
+        def pat_ok(e):
+            st2, sn = [e], set()
+            while st2:
+                x = st2.pop()
+                if x.get_id() in sn:
+                    continue
+                sn.add(x.get_id())
+                if not z3.is_app(x) or x.decl().kind() not in OKK:
+                    return False
+                st2.extend(x.children())
+            return True
+        while stack:
+            x = stack.pop()
+            if x.get_id() in seen:
+                continue
+            seen.add(x.get_id())
+            if z3.is_quantifier(x):
+                continue            # nested quantifiers get their own triggers
+            if z3.is_select(x) and x.arg(1).get_id() == kid and not has_k(x.arg(0)) and pat_ok(x.arg(0)):
+                pats[x.get_id()] = x
+            stack.extend(x.children())
+        if pats:
+            return z3.ForAll([k], body, patterns=list(pats.values())[:6])
+        return z3.ForAll([k], body)
 
     # ------------------------------------------------------------------ calls
     def call_value(self, state, f, args, kw, node=None):
@@ -1156,6 +1301,7 @@ class Engine:
         return self.call_function(state, ci, name, fn, None, None, node, bound=bound, module=module)
 
     verifying = None
+    quant_depth = 0
 
     def call_function(self, state, ci, name, fn, args, kw, node=None, bound=None, module=None):
         """Inline execution of a callee body (only for functions without a contract)."""
@@ -1227,6 +1373,8 @@ class Engine:
         if t.startswith("tuple("):
             parts = [p.strip() for p in t[6:-1].split(",")]
             return Tuple_([self.typed_fresh(state, base + str(i), p) for i, p in enumerate(parts)])
+        if t.startswith(("seq:", "map:")):
+            return ArrVal(self.fresh(base, self.sort_of_type(t)), self.arr_elem(t))
         r = self.fresh(base, IntS)
         v = self.wrap(r, t)
         state.assume(z3.And(r >= (0 if t.endswith("?") else 1), r < state.abase + state.nalloc))
@@ -1271,6 +1419,9 @@ class Engine:
 
     def apply_contract(self, state, con, bound, node=None):
         env = dict(bound)
+        for k, v in list(env.items()):
+            if v is None and con.params.get(k) == "int":
+                env[k] = 0        # documented encoding: an optional int (maxlen=None) is 0
         label = "%s" % con.qual
         saved_cls = self.cur_class
         self.cur_class = con.cls
@@ -1304,7 +1455,10 @@ class Engine:
                 state.env[gname] = env2[gname]      # ghost out-parameters become ghost locals of the caller
             # exceptional exits
             for exc, posts in con.raises.items():
+                disc = self.fresh("exc_" + con.name, BoolS)      # which exit the callee takes: branch condition
                 st2 = state.fork()
+                st2.add_cond(disc)
+                state.add_cond(z3.Not(disc))
                 for p in posts:
                     st2.assume(self.eval_spec(st2, p, env2, pre))
                 st2.env = dict(self.caller_env_stack[-1]) if self.caller_env_stack else dict(state.env)
@@ -1631,12 +1785,39 @@ class Engine:
             return self.exec_block(state, st.body)
         if z3.is_false(zc):
             return self.exec_block(state, st.orelse)
+        # feasibility pruning (quantifier-free part of the path condition, short budget): a branch whose condition
+        # contradicts the path condition is not executed.  Only `unsat` prunes.
+        feas_t = self.feasible(state, zc)
+        feas_f = self.feasible(state, z3.Not(zc)) if feas_t else True
+        if not feas_t:
+            state.add_cond(z3.Not(zc))
+            return self.exec_block(state, st.orelse) if st.orelse else [(state, Outcome.NORMAL, None)]
+        if not feas_f:
+            state.add_cond(zc)
+            return self.exec_block(state, st.body)
         s1 = state.fork()
-        s1.pc.append(zc)
+        s1.add_cond(zc)
         s2 = state
-        s2.pc.append(z3.Not(zc))
+        s2.add_cond(z3.Not(zc))
         outs = self.exec_block(s1, st.body) + (self.exec_block(s2, st.orelse) if st.orelse else [(s2, Outcome.NORMAL, None)])
         return outs
+
+    prune = False      # branch-feasibility pruning (enabled per check; costs one short solver call per symbolic branch)
+
+    def feasible(self, state, cond):
+        if not self.prune:
+            return True
+        from .state import _has_quant
+        s = z3.Solver()
+        s.set("timeout", 300)
+        for h in self.axioms:
+            if not _has_quant(h):
+                s.add(h)
+        for h in state.pc:
+            if not _has_quant(h):
+                s.add(h)
+        s.add(cond)
+        return s.check() != z3.unsat
 
     def s_Try(self, state, st):
         if st.finalbody:
@@ -1713,6 +1894,8 @@ class Engine:
             if n is None:
                 self.unsupported("loop over a sequence of symbolic length needs a loop contract", st)
             return self.unroll(state, st, [self.vec_get(state, it, i) for i in range(n)])
+        if isinstance(it, Ref) and self.spec_class(it) is not None and self.repo.cls(self.spec_class(it)) is not None:
+            return self.for_iterator(state, st, it, spec)
         if spec is None:
             self.unsupported("loop with symbolic bound needs a sidecar loop contract (%s loop #%s)" %
                              (self.cur_qual_for_loops(), self.loop_ordinal(st)), st)
@@ -1761,17 +1944,28 @@ class Engine:
                     names.add(n.id)
         return names
 
-    def run_ghost(self, state, stmts):
+    def run_ghost(self, state, stmts, old=None, strict=False):
         for g in stmts:
             if callable(g):
                 g(self, state)
                 continue
             for stn in ast.parse(g).body:
+                if strict:
+                    # non-interference: ghost code may only assign ghost locals / ghost fields (names starting with 'g')
+                    for n in ast.walk(stn):
+                        if isinstance(n, (ast.Name, ast.Attribute, ast.Subscript)) and isinstance(n.ctx, ast.Store):
+                            nm = n.id if isinstance(n, ast.Name) else (n.attr if isinstance(n, ast.Attribute) else None)
+                            if nm is None or not nm.startswith("g"):
+                                raise EngineError("ghost code assigns non-ghost state: %s" % g)
                 self.spec_mode += 1
+                saved_old = self.old_state
+                if old is not None:
+                    self.old_state = old
                 try:
                     outs = self.exec_stmt(state, stn)
                 finally:
                     self.spec_mode -= 1
+                    self.old_state = saved_old
                 if len(outs) != 1 or outs[0][1] != Outcome.NORMAL:
                     raise EngineError("ghost code must be straight-line: %s" % g)
                 if outs[0][0] is not state:
@@ -1821,7 +2015,7 @@ class Engine:
         after = state.fork()
         # 3. body
         body = state
-        body.assume(z3.And(zlo <= j, j < zhi))
+        body.add_cond(z3.And(zlo <= j, j < zhi))
         self.covers.append(("reach-body[%s]" % label, list(self.axioms) + list(body.pc)))
         var0 = self.eval_spec_value(body, spec.variant, body.env) if spec.variant else None
         self.push_frame(locs, simp(pre_loop.abase + pre_loop.nalloc), label)
@@ -1850,7 +2044,7 @@ class Engine:
             else:
                 res.append((s, oc, val))
         # 4. after the loop
-        after.assume(j >= zhi)
+        after.add_cond(j >= zhi)
         after.assume(zlo <= j)      # with lo <= hi the invariant gives j == hi
         after.env[jn] = Poison("loop variable after an invariant-loop")
         res.append((after, Outcome.NORMAL, None))
@@ -1861,6 +2055,8 @@ class Engine:
             r = self.fresh("hv_" + name, IntS)
             state.assume(z3.And(r >= 0, r < state.abase + state.nalloc))
             return Ref(r, v.cls)
+        if isinstance(v, ArrVal):
+            return ArrVal(self.fresh("hv_" + name, v.arr.sort()), v.elem)
         if isinstance(v, bool) or (is_z3(v) and z3.is_bool(v)):
             return self.fresh("hv_" + name, BoolS)
         if isinstance(v, int) or (is_z3(v) and z3.is_int(v)):
@@ -1874,7 +2070,119 @@ class Engine:
         return Poison("havoc of %r" % (v,))
 
     def s_While(self, state, st):
-        self.unsupported("while loop (needs loop contract support)", st)
+        if st.orelse:
+            self.unsupported("while/else", st)
+        spec = self.loop_specs.get((self.cur_file, self.cur_qual_for_loops(), self.loop_ordinal(st)))
+        if spec is None:
+            self.unsupported("while loop needs a sidecar loop contract (%s loop #%s)" %
+                             (self.cur_qual_for_loops(), self.loop_ordinal(st)), st)
+
+        def head(s):
+            c = self.truth(self.eval(s, st.test), st)
+            cc = concrete(c)
+            if cc is not None:
+                return [(s, "enter" if cc else "exit")]
+            zc = to_z3(c, BoolS)
+            s_exit = s.fork()
+            s.add_cond(zc)
+            s_exit.add_cond(z3.Not(zc))
+            return [(s, "enter"), (s_exit, "exit")]
+        return self.loop_generic(state, st, spec, head, set())
+
+    def for_iterator(self, state, st, it, spec):
+        """`for x in obj` over an object implementing __iter__/__next__ (CPython protocol): iter(obj) once, then
+        next() at every loop head; StopIteration raised by next() ends the loop, StopIteration (or anything else)
+        raised by iter() propagates."""
+        cls = self.spec_class(it)
+        ci, fn = self.repo.find_method(cls, "__iter__")
+        if fn is None:
+            self.unsupported("for-loop over an object without __iter__", st)
+        itobj = self.invoke(state, ci, "__iter__", fn, [it], {}, st, recv_cls=cls)
+        if not isinstance(itobj, Ref):
+            self.unsupported("__iter__ did not return an object", st)
+        icls = self.spec_class(itobj)
+        ci2, fn2 = self.repo.find_method(icls, "__next__")
+        if fn2 is None:
+            self.unsupported("iterator without __next__", st)
+        if spec is None:
+            self.unsupported("loop over an iterator needs a sidecar loop contract (%s loop #%s)" %
+                             (self.cur_qual_for_loops(), self.loop_ordinal(st)), st)
+
+        def head(s):
+            saved, self.pending_raises = self.pending_raises, []
+            try:
+                v = self.invoke(s, ci2, "__next__", fn2, [itobj], {}, st, recv_cls=icls)
+            finally:
+                mine, self.pending_raises = self.pending_raises, saved
+            outs = []
+            for s2, exc in mine:
+                if exc.cls == "StopIteration":
+                    outs.append((s2, "exit"))
+                else:
+                    self.pending_raises.append((s2, exc))
+            if not isinstance(v, Poison):
+                self.assign_target(s, st.target, v, st)
+                outs.append((s, "enter"))
+            return outs
+        tnames = {n.id for n in ast.walk(st.target) if isinstance(n, ast.Name)}
+        return self.loop_generic(state, st, spec, head, tnames)
+
+    def loop_generic(self, state, st, spec, head, target_names):
+        """Loop rule for loops whose head has side effects (while-test with calls, iterator protocol):
+        invariant holds before every evaluation of the head; head(s) -> [(state, 'enter'|'exit')]."""
+        label = "%s#loop%s" % (self.cur_func_qual, self.loop_ordinal(st))
+        self.run_ghost(state, spec.ghost_before)
+        entry_snapshot = state.fork()
+        for i, inv in enumerate(spec.invariant):
+            self.oblige(state, self.eval_spec(state, inv, state.env, entry_snapshot), "inv-entry[%s#%d]" % (label, i),
+                        st, str(inv))
+        locs = [self.parse_target(state, t, state.env) for t in spec.modifies]
+        for loc in locs:
+            self.check_frame(state, loc, st)
+        written = self.assigned_names(st.body) | set(target_names)
+        for g in list(spec.ghost_body_start) + list(spec.ghost_body_end):
+            if isinstance(g, str):
+                written |= self.assigned_names(ast.parse(g).body)
+        pre_loop = state.fork()
+        for loc in locs:
+            self.havoc_target(state, loc)
+        for n in sorted(written):
+            v = state.env.get(n)
+            if v is None and n not in state.env:
+                continue
+            state.env[n] = self.havoc_like(state, n, v)
+        for inv in spec.invariant:
+            state.assume(self.eval_spec(state, inv, state.env, pre_loop))
+        self.covers.append(("reach-head[%s]" % label, list(self.axioms) + list(state.pc)))
+        var0 = self.eval_spec_value(state, spec.variant, state.env) if spec.variant else None
+        self.push_frame(locs, simp(pre_loop.abase + pre_loop.nalloc), label)
+        res = []
+        try:
+            heads = head(state)
+            for s, kind in heads:
+                if kind == "exit":
+                    res.append((s, Outcome.NORMAL, None))
+                    continue
+                self.covers.append(("reach-body[%s]" % label, list(self.axioms) + list(s.pc)))
+                self.run_ghost(s, spec.ghost_body_start)
+                outs = self.exec_block(s, st.body)
+                for s2, oc, val in outs:
+                    if oc in (Outcome.NORMAL, Outcome.CONTINUE):
+                        self.run_ghost(s2, spec.ghost_body_end)
+                        for i, inv in enumerate(spec.invariant):
+                            self.oblige(s2, self.eval_spec(s2, inv, s2.env, pre_loop), "inv-step[%s#%d]" % (label, i),
+                                        st, str(inv))
+                        if spec.variant:
+                            var1 = self.eval_spec_value(s2, spec.variant, s2.env)
+                            self.oblige(s2, z3.And(to_z3(var0, IntS) > to_z3(var1, IntS), to_z3(var1, IntS) >= 0),
+                                        "variant[%s]" % label, st, spec.variant)
+                    elif oc == Outcome.BREAK:
+                        res.append((s2, Outcome.NORMAL, None))
+                    else:
+                        res.append((s2, oc, val))
+        finally:
+            self.pop_frame()
+        return res
 
     # ------------------------------------------------------------------ verification of one function
     def verify_function(self, con, extra_assumptions=(), check_frames=True):
@@ -1924,6 +2232,9 @@ class Engine:
         exits = []
         for s, oc, val in outs:
             if oc in (Outcome.NORMAL, Outcome.RETURN):
+                if con.ghost_exit:
+                    s.env["result"] = val
+                    self.run_ghost(s, con.ghost_exit, old=pre, strict=True)
                 env2 = dict(s.env)
                 env2.update(params)
                 env2["result"] = val
@@ -1958,6 +2269,8 @@ class Engine:
             return z3.Bool(self.prefix + n)
         if t.startswith("const:"):
             return eval(t[6:], {"Fraction": Fraction})
+        if t.startswith(("seq:", "map:")):
+            return ArrVal(z3.Const(self.prefix + n, self.sort_of_type(t)), self.arr_elem(t))
         r = z3.Int(self.prefix + n)
         nullable = t.endswith("?")
         if nullable:
